@@ -100,10 +100,10 @@ PROPS['C07'] = {
     'assumptions': [],
 }
 PROPS['C08'] = {
-    'level': 'proof', 'verus': ['core_step'], 'trusted_base': _CORE_TB, 'design_ref': 'DESIGN.md 5.8',
+    'level': 'proof', 'verus': ['core_step'], 'kani': ['isa'], 'trusted_base': _CORE_TB, 'design_ref': 'DESIGN.md 5.8',
     'technique': 'Verus contracts on Core::run_interp / Core::update / interpreter::run_next_op against the reference machine ime_step/run_step; induction lemmas over status sequences',
     'level_text': 'run_interp is proved to hand handle_interrupt exactly the state (IME = ime_step(old IME, status), run state = run_step, devices caught up); no dispatch happens in a step whose IME is not Enabled after the instruction; update proves that a halted/stopped CPU executes nothing, stays at the same PC until IF & IE != 0, and resumes at the following instruction (or in the handler when IME is on). Lemmas over ime_step give the EI delay, EI;DI, DI/RETI immediacy and "IME stays off" for all sequences.',
-    'level_note': 'Status codes per opcode come from the C06 obligations (assumed contract of run_op here). HALT with an interrupt already pending is excluded as in the property.',
+    'level_note': 'Status codes per opcode (EI, DI, RETI, HALT, STOP and NORMAL for everything else) are the check "C06,C08: status" of the Kani ISA harnesses, counted here as well; the rest of run_op\'s contract is assumed in unit core_step. HALT with an interrupt already pending is excluded as in the property.',
     'assumptions': ['the executed instruction does not straddle the end of its fetch slice (decode would index past the slice otherwise)'],
 }
 PROPS['C09'] = {
